@@ -547,3 +547,53 @@ Definition sg_oracle (coro vd lax : bool) (ops obs : list (list Z)) : bool :=
       then all_done (os_tab o) && (os_bal o =? 0)
       else true
   end.
+
+(* ================================================================================================
+   Cross-thread subscribe against the collector's exchange (awaiter.h:65-74 vs 80-85), interleaving model.
+   Threads: any number of subscribers, each running awaiter::subscribe — a CAS loop whose every attempt is
+   one atomic step with the thread-local expected value `_next` (starts as nullptr; a failed attempt loads
+   the current head) — and the collector thread doing `left` exchanges (each takes the whole chain = one
+   round).  A schedule is a list of naturals: choice k runs the (k mod |enabled|)-th enabled thread.
+   Pointers are identified with the id of the awaiter they point to (None = nullptr); links live in the
+   awaiters, so a CAS that succeeds on a re-used head value still yields a consistent chain.
+   ================================================================================================ *)
+Record sub := mkSub { sid : nat; sexp : option nat; spub : bool }.
+Record cs := mkCs { c_head : list nat; c_subs : list sub; c_rounds : list (list nat); c_left : nat }.
+
+Definition head_id (l : list nat) : option nat := match l with [] => None | x :: _ => Some x end.
+Definition oeq (a b : option nat) : bool :=
+  match a, b with None, None => true | Some x, Some y => Nat.eqb x y | _, _ => false end.
+
+(* indices of the enabled threads: unpublished subscribers, then the collector (index = number of subscribers) *)
+Fixpoint enabled_subs (l : list sub) (k : nat) : list nat :=
+  match l with
+  | [] => []
+  | x :: t => if spub x then enabled_subs t (S k) else k :: enabled_subs t (S k)
+  end.
+Definition enabled (c : cs) : list nat :=
+  enabled_subs (c_subs c) O ++ (match c_left c with O => [] | S _ => [length (c_subs c)] end).
+
+Definition cs_thread (c : cs) (j : nat) : cs :=
+  match nth_error (c_subs c) j with
+  | Some x =>
+      if spub x then c else
+      if oeq (sexp x) (head_id (c_head c))
+      then mkCs (sid x :: c_head c) (set_nth (c_subs c) j (mkSub (sid x) (sexp x) true)) (c_rounds c) (c_left c)
+      else mkCs (c_head c) (set_nth (c_subs c) j (mkSub (sid x) (head_id (c_head c)) false)) (c_rounds c) (c_left c)
+  | None =>
+      match c_left c with
+      | O => c
+      | S k => mkCs [] (c_subs c) (c_rounds c ++ [c_head c]) k     (* chain.exchange(nullptr) *)
+      end
+  end.
+
+Definition cs_step (c : cs) (choice : nat) : cs :=
+  match enabled c with
+  | [] => c
+  | e => cs_thread c (nth (Nat.modulo choice (length e)) e O)
+  end.
+
+Definition cs_run (c : cs) (sched : list nat) : cs := fold_left cs_step sched c.
+
+Definition cs0 (ids : list nat) (k : nat) : cs := mkCs [] (map (fun i => mkSub i None false) ids) [] k.
+Definition published (c : cs) : list nat := map sid (filter spub (c_subs c)).
